@@ -86,7 +86,12 @@ def splice(tmpl_path, repo_root):
             c = find_const(repo_text(a['file']), a['const'], a.get('ctx'), int(a.get('index', 0)))
             out.anchors.append(dict(file=a['file'], item='const ' + a['const'], line=c['line']))
             out.rewrites.append('R2 const %s (%s:%d) hosted as fn body: %s' % (a['const'], a['file'], c['line'], norm(c['expr'])))
-            return '/*%s:%d*/ %s' % (a['file'], c['line'], c['expr'].replace('\n', ' '))
+            expr = c['expr'].replace('\n', ' ')
+            # fnify=A,B: other hosted constants referenced by this initialiser become calls (`Self::A` -> `Self::A()`)
+            for nm in [x for x in a.get('fnify', '').split(',') if x]:
+                src_nm, _, dst_nm = nm.partition(':')
+                expr = re.sub(r'::%s\b(?!\()' % re.escape(src_nm), '::%s()' % (dst_nm or src_nm), expr)
+            return '/*%s:%d*/ %s' % (a['file'], c['line'], expr)
         def rep_arm(mm):
             a = _args(mm.group(1))
             c = find_macro_arm(repo_text(a['file']), a['macro'], int(a['arm']))
